@@ -541,6 +541,40 @@ def run_dro(case, ses):
                 if bad:
                     report(ses, 'dro.get', '%s: x.get()[%r] %s' % (label, lab[s], bad[1]), dict(k='dro', case=case, seq=seq))
                     break
+            # coefficient tables per scenario (sentinel solution): labels and columns
+            if adaptive:
+                sent = np.arange(n, dtype=float) + 0.25
+                sol2 = Solution('sentinel', 0.0, sent, 0, 0.0)
+                m.solution = sol2
+                m.ro_model.solution = sol2
+                m.ro_model.rc_model.solution = sol2
+                ses.stats.obligations += 1
+                ses.stats.kinds['dro-coefficients(sentinel)'] = ses.stats.kinds.get('dro-coefficients(sentinel)', 0) + 1
+                gz = x.get(z)
+                okc = True
+                for s in range(ns):
+                    rs = rules[s]
+                    val = gz.loc[lab[s]] if isinstance(gz, pd.Series) else gz
+                    tab = np.array(val, dtype=float).reshape(x.size, -1)
+                    R = sp.csr_matrix(rs.raffine.linear).toarray()
+                    nr = rs.raffine.shape[1]
+                    for e in range(x.size):
+                        for j in range(z.size):
+                            row = R[(x.first + e) * nr + z.first + j]
+                            nz = np.nonzero(row)[0]
+                            g_ = tab[e, j]
+                            if len(nz) == 1:
+                                okc = okc and abs(g_ - (nz[0] + 0.25)) < 1e-9
+                            else:
+                                okc = okc and np.isnan(g_)
+                if okc:
+                    ses.stats.discharged += 1
+                else:
+                    report(ses, 'dro.get(z)', '%s: x.get(z) does not return, per scenario label, the coefficient columns of that '
+                           "scenario's rule" % label, dict(k='dro', case=case, seq=seq))
+                m.solution = sol
+                m.ro_model.solution = sol
+                m.ro_model.rc_model.solution = sol
             # affine expression call per scenario (symbolic solution, realisation assigned)
             expr = 2.0 * x[1] - w + 0.5
             try:
